@@ -19,12 +19,26 @@ Theorem C15_memcpy_path_is_sound : forall T U v,
 Proof. exact memcpy_compatible_sound. Qed.
 Print Assumptions C15_memcpy_path_is_sound.
 
+(* T(item) where the item is consumed as an lvalue, T(std::move(item)) where the dispatch moves
+   (rvalue ranges that are not memcpy'd, move_iterators): convm; the two differ for one pair of
+   the universe only (Handle <- Raw, a trivially copyable source whose conversion adopts from
+   an rvalue), C15_value_category_matters_only_there *)
 Theorem C15_stored_objects_are_converted_items : forall f rv T U src n,
   wf_vty T -> Forall (in_range U) src ->
-  stored f rv T U src n = map (fun v => repr T (conv U T v)) (firstn n src) /\
+  stored f rv T U src n = map (fun v => repr T (convm (moves f rv T U) U T v)) (firstn n src) /\
   length (stored f rv T U src n) = Nat.min n (length src).
 Proof. exact stored_is_converted. Qed.
 Print Assumptions C15_stored_objects_are_converted_items.
+
+Theorem C15_value_category_matters_only_there : forall b U T v,
+  ~ (T = VHandle /\ U = VRaw) -> convm b U T v = conv U T v.
+Proof. exact value_category_irrelevant. Qed.
+Print Assumptions C15_value_category_matters_only_there.
+
+Example C15_move_iterator_adopts :
+  stored FMoveIter false VHandle VRaw [7; 9] 2 = [[7;0;0;0;1;0;0;0]; [9;0;0;0;1;0;0;0]] /\
+  stored FContigIter false VHandle VRaw [7; 9] 2 = [[7;0;0;0;0;0;0;0]; [9;0;0;0;0;0;0;0]].
+Proof. vm_compute. split; reflexivity. Qed.
 
 Theorem C15_lvalue_sources_are_not_moved_from : forall f T U src n, is_range f = true ->
   moved_from f false T U src n = repeat 0 (length src).
